@@ -186,7 +186,7 @@ def impl_case(case):
         return res
     if case[0] == "light":
         return res          # natural outcome only (restoration / usability after NoSolutionError)
-    budget = MAX_FAULTS[tier] * (8 if case[0] == "selfloc" else 1)
+    budget = MAX_FAULTS[tier] * (8 if case[0] == "selfloc" and tier == "quick" else 1)
     ks = list(range(1, n_evals + 1))
     if len(ks) > budget:
         step = len(ks) / float(budget)
